@@ -49,6 +49,7 @@ type Input struct {
 	Algs    []string          `json:"algs,omitempty"`
 	RunDir  bool              `json:"run_dir,omitempty"`
 	Params  map[string]string `json:"params,omitempty"`
+	Isolate bool              `json:"isolate,omitempty"`           // run in a child process with a memory watchdog (params.go)
 	Inter   [][]byte          `json:"intermediate_pems,omitempty"` // caller-supplied intermediate certificates
 	File2   []byte            `json:"file2,omitempty"`             // nulltwin: the reference document ({} / [] in place of null)
 	// DeadlineMs shortens the deadline for inputs that are expected to hang on unrepaired code (so that a
@@ -190,6 +191,9 @@ func pool(name string) lib.KeyPair {
 // ---------- execute ----------
 
 func execute(in *Input) Result {
+	if res, done := isolated(in); done {
+		return res
+	}
 	r := &recorder{}
 	if in.DeadlineMs > 0 {
 		r.deadline = time.Duration(in.DeadlineMs) * time.Millisecond
@@ -223,6 +227,8 @@ func execute(in *Input) Result {
 		return execNullTwin(r, in)
 	case "layoutcerts":
 		return execLayoutCerts(r, in)
+	case "params":
+		return execParams(r, in)
 	}
 	r.call("unknown entry "+in.Entry, func() error { return fmt.Errorf("unknown entry") })
 	return r.finish(ERR)
